@@ -99,12 +99,19 @@ End Eval.
 Definition eval : expr -> ares := eval_with arith neg.
 Definition eval_pre (m : mode) : expr -> ares := eval_with (arith_pre m) (neg_pre m).
 
-(** ** integer SUM aggregate: aggregate.rs [AggregateState::SumInt] / [SumIntDistinct] do
-    [*sum += v] with the plain operator on [i64], in the order the rows arrive *)
-Fixpoint sum_int (m : mode) (acc : Z) (vs : list Z) : res Z :=
+(** ** integer SUM aggregate: aggregate.rs [AggregateState::SumInt] / [SumIntDistinct].
+    Before a66b89b ([sum_int_pre]): [*sum += v] with the plain operator on [i64], in the order the rows arrive. *)
+Fixpoint sum_int_pre (m : mode) (acc : Z) (vs : list Z) : res Z :=
   match vs with
   | [] => Ok acc
-  | v :: r => rbind (add_i64 m acc v) (fun a => sum_int m a r)
+  | v :: r => rbind (add_i64 m acc v) (fun a => sum_int_pre m a r)
+  end.
+(** The code as it is now: [sum.checked_add(v)]; when a partial sum leaves the i64 range the state becomes a
+    FLOAT sum — float arithmetic is not modelled, the outcome "a float" is [None]. *)
+Fixpoint sum_int (acc : Z) (vs : list Z) : option Z :=
+  match vs with
+  | [] => Some acc
+  | v :: r => if in_i64b (acc + v) then sum_int (acc + v) r else None
   end.
 Fixpoint zsum (vs : list Z) : Z := match vs with [] => 0 | v :: r => v + zsum r end.
 (** every partial sum, in arrival order, fits in an [i64] *)
